@@ -91,7 +91,8 @@ def cause_of(clause, rec):
     cfg, cred = rec["cfg"], rec["cred"]
     if clause == "admitted-unacceptable":
         if cfg["role"] == "server":
-            return "client-cert-not-required" if cred["class"] == "none" else "client-cert-not-verified"
+            # peer.sent: the raw client actually presented its certificate in this handshake (observed, not derived)
+            return "client-cert-not-verified" if rec["peer"].get("sent") else "client-cert-not-required"
         if cfg["ca"] != "caA":
             return "server-cert-accepted-without-configured-ca"
         if cred["class"] == "valid":
